@@ -146,6 +146,12 @@ var rules = []rule{
 	r(`default value is not allowed on fields with implicit presence`, "default-implicit"),
 	r(`cannot use closed enum`, "closed-enum-implicit"),
 	r(`enum value in map must define 0 as the first value`, "map-enum-first-zero"),
+	r(`cannot use field number \d+ for an extension because it is reserved in declaration`, "extdecl-reserved"),
+	r(`expected extension with number \d+ to be named`, "extdecl-name"),
+	r(`expected extension with number \d+ to have type`, "extdecl-type"),
+	r(`expected extension with number \d+ to be (repeated|optional)`, "extdecl-repeated"),
+	r(`expected extension with number \d+ to be declared in type`, "extdecl-missing"),
+	r(`extension declaration|extension range cannot have declarations|extension for tag number \d+ already declared|extension \S+ already declared as extending`, "extdecl-bad"),
 	r(`default value cannot be a message`, "default-message"),
 	r(`enum \S+ has no value named|is not a member of enum|expecting enum|expecting identifier|expecting (string|int|uint|bool|float|double|bytes)|out of range for|is out of range|value is not a valid`, "default-bad-value"),
 	r(`cannot be defined more than once`, "option-repeated"),
@@ -466,6 +472,67 @@ func (c *conv) ranges(rs []*ast.RangeNode) []any {
 	return out
 }
 
+// options of an extension range: verification and declaration = { number full_name type reserved repeated }
+func (c *conv) xopts(co *ast.CompactOptionsNode) map[string]any {
+	var verification any
+	decls := []any{}
+	for _, o := range co.Options {
+		n, simple := optName(o)
+		switch {
+		case simple && n == "verification":
+			id, ok := o.Val.Value().(ast.Identifier)
+			if !ok || verification != nil || (id != "DECLARATION" && id != "UNVERIFIED") {
+				c.bad("extension range option verification")
+				continue
+			}
+			verification = string(id)
+		case simple && n == "declaration":
+			lit, ok := o.Val.(*ast.MessageLiteralNode)
+			if !ok {
+				c.bad("extension range option declaration")
+				continue
+			}
+			d := map[string]any{"number": nil, "full_name": nil, "type": nil, "reserved": false, "repeated": false}
+			seen := map[string]bool{}
+			for _, el := range lit.Elements {
+				fn := string(el.Name.Name.AsIdentifier())
+				if el.Name.IsExtension() || el.Name.IsAnyTypeReference() || seen[fn] {
+					c.bad("extension declaration field")
+					continue
+				}
+				seen[fn] = true
+				switch v := el.Val.Value().(type) {
+				case uint64:
+					if fn == "number" {
+						d["number"] = strconv.FormatUint(v, 10)
+						continue
+					}
+				case string:
+					if fn == "full_name" || fn == "type" {
+						d[fn] = vhlib.Hx([]byte(v))
+						continue
+					}
+				case ast.Identifier:
+					if (fn == "reserved" || fn == "repeated") && (v == "true" || v == "false") {
+						d[fn] = v == "true"
+						continue
+					}
+				case bool:
+					if fn == "reserved" || fn == "repeated" {
+						d[fn] = v
+						continue
+					}
+				}
+				c.bad("extension declaration field " + fn)
+			}
+			decls = append(decls, d)
+		default:
+			c.bad("extension range option " + n)
+		}
+	}
+	return map[string]any{"verification": verification, "decls": decls}
+}
+
 func (c *conv) field(f *ast.FieldNode) map[string]any {
 	m := map[string]any{"k": "field", "label": label(f.Label), "type": string(f.FldType.AsIdentifier()),
 		"name": f.Name.Val, "num": nil, "opts": c.fieldOpts(f.Options)}
@@ -577,10 +644,11 @@ func (c *conv) body(decls []ast.MessageElement) []any {
 		case *ast.ExtendNode:
 			out = append(out, c.extend(d))
 		case *ast.ExtensionRangeNode:
+			m := map[string]any{"k": "extensions", "ranges": c.ranges(d.Ranges)}
 			if d.Options != nil {
-				c.bad("extension range options")
+				m["xopts"] = c.xopts(d.Options)
 			}
-			out = append(out, map[string]any{"k": "extensions", "ranges": c.ranges(d.Ranges)})
+			out = append(out, m)
 		case *ast.ReservedNode:
 			out = append(out, c.reserved(d))
 		case *ast.OptionNode:
